@@ -493,7 +493,7 @@ func init() {
 	}
 	if raceMode {
 		spec.Workers = 1 // one case at a time so that a race report can be attributed
-	} else {
+	} else if os.Getenv("VERIF_C14_SKIP_RACE") == "" {
 		spec.Post = raceHalf
 	}
 	sim.Register(spec)
